@@ -96,7 +96,7 @@ def startSession (s : Sess) : Sess × List Out :=
        .toMiner s!"notify job={job} clean=true ntime=64c25820",
        .toPool p.name 1 "subscribe id=2",
        .toPool p.name 1 s!"authorize id=3 user={user} pwd=pwd{p.name}"]
-    ({ setPool s { p with conns := 1, jobN := 1 } with dests := [d], active := some d.key }, outs)
+    ({ setPool s { p with conns := 1, jobN := 1 } with dests := [d], active := some d.key, negMask := if s.vr then p.mask else "" }, outs)
 
 def emit (st : DSt) (r : Sess × List Out) : DSt × List String :=
   let amb := if r.1.ambiguous then ["AMBIGUOUS"] else []
